@@ -194,6 +194,10 @@ Proof.
   exact (spec_root_assoc hf I N C h _ _ W1 W2 E).
 Qed.
 
+Lemma commit_root_unfold : forall hf l,
+  commit_root hf l = spec_root_fast term hf TPath TAddLen (TC 0) CH (indexed l).
+Proof. intros. unfold commit_root. apply eq_refl. Qed.
+
 Lemma commit_root_assoc : forall hf,
   (forall a b c d, hf a b = hf c d -> a = c /\ b = d) ->
   (forall a b c n, hf a b <> TAddLen c n) -> (forall a b z, hf a b <> TC z) ->
@@ -203,7 +207,7 @@ Lemma commit_root_assoc : forall hf,
 Proof.
   intros hf I N C l1 l2 S1 S2 Z1 Z2 E.
   assert (W1 := wf_indexed l1 S1 Z1). assert (W2 := wf_indexed l2 S2 Z2).
-  unfold commit_root in E. revert W1 W2 E. generalize (indexed l1) (indexed l2). generalize CH.
+  rewrite !commit_root_unfold in E. revert W1 W2 E. generalize (indexed l1) (indexed l2). generalize CH.
   intros h m1 m2 W1 W2 E. exact (spec_fast_assoc hf I N C h m1 m2 W1 W2 E).
 Time Qed.
 
